@@ -268,6 +268,12 @@ func (s *Store) CARootSetCAS(idx, cidx uint64, rs []*structs.CARoot) (bool, erro
 	tx := s.db.WriteTxn(idx)
 	defer tx.Abort()
 
+	// caRootSetCASTxn returns nil without writing anything when the CAS index
+	// does not match; that must be reported as "not set", not as success.
+	if midx := maxIndexTxn(tx, tableConnectCARoots); midx != cidx {
+		return false, nil
+	}
+
 	if err := caRootSetCASTxn(tx, idx, cidx, rs); err != nil {
 		return false, err
 	}
